@@ -125,12 +125,12 @@ comp = Component("client-peer-decoder-sessions",
                  "print terminations, static headers and parameters; uri-append excluded, see K1) x sessions of 1-8 actions (check-in "
                  "without task, check-in with a task, callback with arbitrary data, two callbacks) x key material {RSA private key, "
                  "aes_rand, aes+hmac keys, RSA key with only one of the session keys, RSA key + aes_rand}: the decoder fed with the raw HTTP bytes of every message in order yields exactly the packets "
-                 "sent (metadata only with the RSA key), and get_task returns the task the peer sent; 40 sessions quick / 1500 thorough")
+                 "sent (metadata only with the RSA key), and get_task returns the task the peer sent; 150 sessions quick / 1500 thorough")
 c_route = Component("unrelated-traffic-rejected", "requests with a different verb, a URI outside the configured prefixes, or the get URI "
                     "with the post verb raise ValueError in iter_recover_http / get_transform_for_http; 30 quick / 1000 thorough")
 
 _real_request = client_mod.httpx.request
-N = 40 if TIER == "quick" else 1500
+N = 150 if TIER == "quick" else 1500
 for sidx in range(N):
     prof = cfggen.gen_profile(rng)
     # printable placements only: data stored in a header / parameter must survive the wire (no CR / LF / NUL in header values)
